@@ -2751,10 +2751,11 @@ func (p *Parser) evaluateSliceAssignment(ctx context) (Statement, error) {
 		return nil, err
 	}
 	variableDataType := variableValueType.DataType()
-	assignedDataType := value.ValueType().DataType()
+	assignedValueType := value.ValueType()
 
-	if variableDataType != assignedDataType {
-		return nil, p.expectedError(fmt.Sprintf("%s value but got %s", variableDataType, assignedDataType), valueToken)
+	// The assigned value must be a single element of the slice's data type (not a slice itself).
+	if variableDataType != assignedValueType.DataType() || assignedValueType.IsSlice() {
+		return nil, p.expectedError(fmt.Sprintf("%s value but got %s", variableDataType, assignedValueType.String()), valueToken)
 	}
 	return SliceAssignment{
 		Variable: variable,
